@@ -188,7 +188,7 @@ def disk_structure(run, N):
                 layer = node._layer()
                 part = [k for k, t in layer.items() if isinstance(t, tuple) and t and t[0] == node._shuffle_group]
                 bar = [k for k, t in layer.items() if isinstance(t, tuple) and t and t[0] is barrier]
-                col = [k for k, t in layer.items() if isinstance(t, tuple) and t and t[0] is collect]
+                col = [k for k, t in layer.items() if isinstance(t, tuple) and t and (t[0] is collect or t[0] == getattr(node, "_collect", None))]
                 ok = len(bar) == 1 and sorted(layer[bar[0]][1]) == sorted(part) and len(part) == node.frame.npartitions
                 eff = list(node._partitions)
                 ok = ok and sorted(col) == [(node._name, j) for j in range(len(eff))]
